@@ -22,8 +22,13 @@ Dec2 == {Dec(<<Row(">", S(1, "A"), I(1), "or"), Row(cmp, S(2, "B"), b, ct)>>, ov
 Nodes == Ariths \cup Dec1 \cup Dec2
 \* a consumer of node j (to see replacements propagate)
 Use(j, t) == Arith("+", S(j, t), I(1), "X")
+Eff(vals) == [kind |-> "use", vals |-> vals]
 Pairs == {<<Leaf, Leaf, a, b>> : a \in Nodes, b \in Nodes}
 SmallNodes == {n \in Nodes : n.out = "X" /\ (n.kind = "arith" \/ (Len(n.conds) = 1 /\ n.conds[1].cmp = ">" /\ n.conds[1].b = I(1)))}
 Chains == {<<Leaf, Leaf, a, b, Use(3, "X"), Use(4, "X")>> : a \in SmallNodes, b \in SmallNodes}
           \cup {<<Leaf, Leaf, a, Use(3, "X"), b, Use(5, "X"), Use(3, "X")>> : a \in SmallNodes, b \in SmallNodes}
+          \* effects that read the (possibly replaced) nodes: a write of node 4 gated by node 3, a property write of node 4
+          \cup {<<Leaf, Leaf, a, b, Eff(<<S(4, "X"), S(3, "X")>>), Eff(<<S(4, "X")>>)>> : a \in SmallNodes, b \in SmallNodes}
+          \cup {<<Leaf, Leaf, a, b, Eff(<<S(3, "X"), S(4, "X")>>)>> : a \in SmallNodes, b \in SmallNodes}
+          \cup {<<Leaf, Leaf, a, b, Eff(<<I(1), S(4, "X"), S(3, "X")>>), Eff(<<S(4, "X"), S(4, "X"), S(3, "X")>>)>> : a \in SmallNodes, b \in SmallNodes}
 =============================================================================
